@@ -10,7 +10,9 @@ from lib import vlex
 
 KINDS = ("resize", "split", "join", "comment", "allcomment", "case", "tabs")
 # kinds used by the parse-only checks (C05, C04) in addition; not part of the fix-run universe
-EXTRA_KINDS = ("blankline", "wsline", "bcomment")
+EXTRA_KINDS = ("blankline", "wsline", "bcomment", "preproc")
+# single-step kinds of the fix-run universe (two-step chains draw from KINDS only)
+FIX_KINDS = KINDS + ("preproc", "blankline", "bcomment")
 
 _IGNORE_MARKERS = ("vhdl_comp_off", "translate_off", "synthesis", "pragma", "rtl_synthesis", "altera", "synopsys", "xilinx", "vsg_")
 
@@ -107,6 +109,12 @@ def transform(text, kind, k=0):
                     continue
                 if "\n" in t and r < p:
                     out.append(t.replace("\n", "\n  /* own%d */\n" % i, 1))
+                    continue
+            if kind == "preproc" and "\n" in t and i > 0 and nextk is not None and prevk not in ("pre",) and nextk != "pre":
+                # a preprocessor line (what VSG recognises: `#...` at column 0 or after blanks) on its own line
+                if rng.random() < p / 2:
+                    line = rng.choice(["#ifdef VERIF_%d" % i, "#endif", "#include \"verif_%d.vh\"" % i, "  #define VERIF_%d 1" % i, "#else"])
+                    out.append(t.replace("\n", "\n" + line + "\n", 1))
                     continue
             if kind == "allcomment" and "\n" in t and i > 0 and prevk not in ("lcom", "pre", None):
                 # a comment at EVERY line end that does not have one
